@@ -19,8 +19,8 @@ RULE = (
     "one flagged pixel with a visible valid pixel and one unflagged pixel"
 )
 ASSUMPTIONS = [
-    "the filled value is judged by its bounds only (finite, inside [min,max] of the visible valid pixels); median / "
-    "second-lowest estimators are not re-derived",
+    "occlusion passes: the filled value is judged by its bounds (finite, inside [min,max] of the visible valid pixels; "
+    "mc-cnn: exactly the first valid pixel of the row); mismatch passes: also the median of the per-direction first valid pixels",
     "for the 16 half-slope directions of mc-cnn the visible set is the union over three discretisations of the path "
     "(never stricter than any of them)",
     "a flagged pixel with a visible valid pixel may be filled or stay flagged (the statement constrains both outcomes "
@@ -197,6 +197,25 @@ def judge_pass(ctx, case, desc, p):
                 ok = float(db) == vals[0]
             else:
                 ok = np.isfinite(db) and lo - 1e-6 <= float(db) <= hi + 1e-6
+            # mismatch passes: 'the median of' the first valid pixels of the scan directions (one value per direction)
+            if ok and target == MIS:
+                dirs = DIR16 if method == "mc-cnn" else DIR8
+                variants = ("trunc", "floor", "round") if method == "mc-cnn" else ("trunc",)
+                meds = []
+                for var in variants:
+                    per_dir = []
+                    for dy, dx in dirs:
+                        f_ = first_valid(valid_ok, y, x, dy, dx, (var,))
+                        per_dir.append(float(d0[next(iter(f_))]) if f_ else np.nan)
+                    arr = np.array(per_dir, np.float32)
+                    if np.isfinite(arr).any():
+                        meds.append(float(np.nanmedian(arr)))
+                ctx.count("median_estimator_judged")
+                if meds and not any(abs(float(db) - m_) <= 1e-6 * max(1.0, abs(m_)) for m_ in meds):
+                    ctx.violation("filled-value-is-not-the-median",
+                                  f"{method}/{name}: pixel ({y},{x}) filled with {db!r}; median of the first valid pixels along the "
+                                  f"{len(dirs)} directions is {meds}", case, situation=f"{method}:{name}", desc=desc)
+                    n_viol += 1
             if not ok:
                 ctx.violation(
                     "filled-value-outside-visible-range",
